@@ -366,6 +366,7 @@ func c01dEncode(src string, annotate bool) (enc string, perr, uerr error) {
 type c01dTrigVisitor struct {
 	foreign  *bool          // K-C01D-4
 	forLet   *bool          // K-C01D-5
+	dangling *bool          // K-C01D-6
 	declared []pjs.VarArray // Declared lists of the enclosing function scopes (innermost last)
 }
 
@@ -409,6 +410,10 @@ func (t c01dTrigVisitor) Enter(x pjs.INode) pjs.IVisitor {
 	case *pjs.MethodDecl:
 		t.declared = append(append([]pjs.VarArray{}, t.declared...), n.Body.Scope.Declared)
 		return t
+	case *pjs.IfStmt:
+		if n.Else != nil && c01dLoopTailVanishes(n.Body) {
+			*t.dangling = true
+		}
 	case *pjs.BinaryExpr:
 		if n.Op == pjs.EqToken {
 			if v, ok := n.X.(*pjs.Var); ok && v.Decl == pjs.VariableDecl && !t.own(v) {
@@ -439,15 +444,60 @@ func (t c01dTrigVisitor) Enter(x pjs.INode) pjs.IVisitor {
 }
 func (t c01dTrigVisitor) Exit(x pjs.INode) {}
 
+// c01dLoopTailVanishes: the statement is a loop (possibly inside loops / blocks / labels) whose body has at least two
+// statements and ends in a statement that can disappear when the body is optimized (var declaration, empty statement,
+// block, if): endsInIf looks at that last statement before the body is optimized (K-C01D-6).
+func c01dLoopTailVanishes(s pjs.IStmt) bool {
+	var list []pjs.IStmt
+	switch n := s.(type) {
+	case *pjs.ForStmt:
+		list = n.Body.List
+	case *pjs.ForInStmt:
+		list = n.Body.List
+	case *pjs.ForOfStmt:
+		list = n.Body.List
+	case *pjs.WhileStmt:
+		if b, ok := n.Body.(*pjs.BlockStmt); ok {
+			list = b.List
+		} else {
+			return c01dLoopTailVanishes(n.Body)
+		}
+	case *pjs.LabelledStmt:
+		return c01dLoopTailVanishes(n.Value)
+	case *pjs.BlockStmt:
+		if len(n.List) == 1 {
+			return c01dLoopTailVanishes(n.List[0])
+		}
+		return false
+	default:
+		return false
+	}
+	if len(list) == 0 {
+		return false
+	}
+	last := list[len(list)-1]
+	if len(list) >= 2 {
+		switch d := last.(type) {
+		case *pjs.VarDecl:
+			if d.TokenType == pjs.VarToken {
+				return true
+			}
+		case *pjs.EmptyStmt, *pjs.BlockStmt, *pjs.IfStmt:
+			return true
+		}
+	}
+	return c01dLoopTailVanishes(last)
+}
+
 // c01dAstTriggers: foreign = an assignment target is marked VariableDecl although the enclosing function does not
 // declare it (K-C01D-4); forLet = the head of a for loop uses a name that the loop body declares with let/const
-// (K-C01D-5, renaming only).
-func c01dAstTriggers(src string) (foreign, forLet bool) {
-	ast, err := pjs.Parse(parse.NewInputString(src), pjs.Options{WhileToFor: true})
+// (K-C01D-5, renaming only); dangling = an if-else whose then-branch is a loop with a tail that can disappear (K-C01D-6).
+func c01dAstTriggers(src string) (foreign, forLet, dangling bool) {
+	ast, err := pjs.Parse(parse.NewInputString(src), pjs.Options{WhileToFor: false})
 	if err != nil {
-		return false, false
+		return false, false, false
 	}
-	t := c01dTrigVisitor{foreign: &foreign, forLet: &forLet, declared: []pjs.VarArray{ast.BlockStmt.Scope.Declared}}
+	t := c01dTrigVisitor{foreign: &foreign, forLet: &forLet, dangling: &dangling, declared: []pjs.VarArray{ast.BlockStmt.Scope.Declared}}
 	pjs.Walk(t, ast)
 	return
 }
